@@ -102,7 +102,7 @@ def decode_fmt(node):
     n = peel(node)
     if not isinstance(n, dict):
         return None
-    if n.get("k") == "call" and (n.get("callee") or "").endswith("::from_str") and "fmt::Arguments" in n.get("callee", ""):
+    if n.get("k") == "call" and (n.get("callee") or "").rsplit("::", 1)[-1] in ("from_str", "from_str_nonconst") and "fmt::Arguments" in n.get("callee", ""):
         a = n["args"][0]
         if a.get("k") == "lit" and a["lit"]["t"] == "str":
             return {"k": "fmt", "pieces": [{"lit": a["lit"]["v"]}] if a["lit"]["v"] else [], "sp": node.get("sp"), "mac": node.get("mac")}
